@@ -395,7 +395,9 @@ func cmdCheck(args []string) int {
 	for _, l := range findingLines {
 		fmt.Println(l)
 	}
-	if violations > 0 && exit == 0 {
+	if violations > 0 {
+		// a failed obligation is the finding; an unreachable return next to it (an invariant that does not hold was
+		// assumed inside its loop) is its consequence, not a fault of the engine
 		exit = 1
 	}
 	wall := time.Since(t0).Seconds()
